@@ -166,3 +166,8 @@ def replay(ctx, case):
         d.text, d.tokens = PINNED[case['index']]
         d.stats = {}
         check_doc(ctx, d, case)
+
+
+import os as _os  # noqa: E402
+if _os.environ.get('VERIF_NO_PINNED'):
+    PINNED = []
